@@ -41,7 +41,7 @@ func c11GetBlock(n int) *c11Block {
 	if v, ok := c11Blocks.Load(n); ok {
 		return v.(*c11Block)
 	}
-	blk := wire.NewMsgBlock(wire.NewBlockHeader(2, &chainhash.Hash{1}, &chainhash.Hash{2}, 0x1d00ffff, 99))
+	blk := wire.NewMsgBlock(fixedHeader(2, &chainhash.Hash{1}, &chainhash.Hash{2}, 0x1d00ffff, 99))
 	b := &c11Block{msg: blk}
 	for i := 0; i < n; i++ {
 		tx := wire.NewMsgTx(1)
